@@ -141,6 +141,7 @@ func (m TaskQueryParam) Clone() TaskQueryParam {
 func (m TaskQueryParam) Normalize() TaskQueryParam {
 	m.ScheduledAt = m.ScheduledAt.Map(normalizeTimeMatcher)
 	m.CreatedAt = m.CreatedAt.Map(normalizeTimeMatcher)
+	m.Deadline = normalizeOptionTimeMatcher(m.Deadline)
 	m.CancelledAt = normalizeOptionTimeMatcher(m.CancelledAt)
 	m.DispatchedAt = normalizeOptionTimeMatcher(m.DispatchedAt)
 	m.DoneAt = normalizeOptionTimeMatcher(m.DoneAt)
